@@ -224,6 +224,9 @@ class Lib:
         np["ones"] = LibFunc("np.ones", lambda i, shape, dtype=None, **k: A.binop("+", self.np_zeros(i, shape, dtype), 1))
         np["ones_like"] = LibFunc("np.ones_like", lambda i, a, dtype=None: A.binop("+", self.np_zeros_like(i, a, dtype), 1))
         np["isclose"] = LibFunc("np.isclose", lambda i, a, b, **k: i.binop("==", a, b))   # A1: floats are reals, tolerance collapses to equality
+        np["array2string"] = LibFunc("np.array2string", self.np_array2string)
+        np["set_printoptions"] = LibFunc("np.set_printoptions", lambda i, **k: cur().trace.append(("np.set_printoptions", dict(k), cur().where)))
+        self.mods["re"] = {"sub": LibFunc("re.sub", self.re_sub)}
         from . import libext
         libext.load_all(self)
 
@@ -237,6 +240,9 @@ class Lib:
     def np_array(self, interp, data, dtype=None, **kw):
         dt = A.norm_dtype(dtype.name if isinstance(dtype, DType) else dtype) if dtype is not None else None
         data = norm(data)
+        from .text import TokList, toklist_to_array
+        if isinstance(data, TokList):
+            return toklist_to_array(data, dt or "float")
         if isinstance(data, A.Arr):
             return A.copy(data) if dt is None else A.astype(data, dt)
         if isinstance(data, SeriesVal):
@@ -381,6 +387,29 @@ class Lib:
             return A.new_arr((A.simp(total),), fn, dt)
         return self.np_column_stack(interp, tup)
 
+    def np_array2string(self, interp, a, **kw):
+        """ASSUMED: np.array2string of a 2-D integer array under threshold=linewidth=inf prints one bracketed row per line"""
+        from .text import Rows, Text
+        a = _arr(a, interp)
+        if a.ndim != 2 or a.dtype not in ("int", "bool"):
+            raise EngineError("array2string of a non-integer or non 2-D array")
+        opts = [e for e in cur().trace if e[0] == "np.set_printoptions"]
+        if not opts:
+            raise EngineError("array2string without set_printoptions(threshold=inf, linewidth=inf): output may be truncated/wrapped")
+        r = a.reader()
+        return Text(["[[", Rows(a.shape[0], a.shape[1], lambda i, c: r((i, c))), "]]"])
+
+    def re_sub(self, interp, pattern, repl, text, **kw):
+        from .text import Rows, Text
+        if pattern == r"[\[\]]" and repl == " ":
+            if isinstance(text, str):
+                import re
+                return re.sub(pattern, repl, text)
+            if isinstance(text, Text):
+                import re
+                return Text([re.sub(pattern, repl, p) if isinstance(p, str) else p for p in text.pieces])
+        raise EngineError("re.sub with an unmodelled pattern")
+
     def np_diff(self, interp, a):
         a = _arr(a, interp)
         if a.ndim != 1:
@@ -524,6 +553,9 @@ class Lib:
         raise EngineError(f"equality of {type(a).__name__} and {type(b).__name__}")
 
     def value_contains(self, interp, container, item):
+        from .text import TokList, toklist_contains
+        if isinstance(container, TokList):
+            return toklist_contains(interp, container, item)
         raise EngineError(f"'in' on {type(container).__name__}")
 
     def value_attr(self, interp, obj, name):
@@ -551,8 +583,11 @@ class Lib:
                 return DType(A.scalar_dtype(obj))
             if name == "shape":
                 return ()
-        if isinstance(obj, str):
+        from .text import LineVal, Text, TokList
+        if isinstance(obj, (str, LineVal, Text)):
             return BoundLib("str." + name, obj)
+        if isinstance(obj, TokList):
+            return BoundLib("toklist." + name, obj)
         if isinstance(obj, Ref):
             if obj.kind == "list":
                 return BoundLib("list." + name, obj)
@@ -608,6 +643,9 @@ class Lib:
             return df_getitem(interp, obj, key)
         if isinstance(obj, RangeVal):
             return obj.item(A._norm_index(key, obj.length()))
+        from .text import TokList, toklist_getitem
+        if isinstance(obj, TokList):
+            return toklist_getitem(interp, obj, key)
         if isinstance(obj, NpCUnderscore):
             return self.np_column_stack(interp, key if isinstance(key, tuple) else (key,))
         if isinstance(obj, BoundLib) and obj.name == "df.loc":
@@ -821,6 +859,9 @@ def lib_iter(interp, v):
         return [(v.start + k, x) for k, x in enumerate(interp.iter_concrete(v.it))]
     if isinstance(v, _Zip):
         return list(zip(*[interp.iter_concrete(x) for x in v.its]))
+    from .text import TokList
+    if isinstance(v, TokList):
+        return v.items()
     raise EngineError(f"iteration over {type(v).__name__}")
 
 
@@ -872,6 +913,9 @@ def _b_len(interp, v):
         return v.length() if not v.concrete() else len(v.to_range())
     if isinstance(v, SymSet):
         return SymSetLen(v)
+    from .text import TokList
+    if isinstance(v, TokList):
+        return v.n
     if isinstance(v, SeriesVal):
         return v.arr.shape[0]
     raise EngineError(f"len of {type(v).__name__}")
@@ -893,8 +937,8 @@ def _b_int(interp, v=0, *a):
     if isinstance(v, str):
         from .text import int_of
         return int_of(v)
-    from .text import Tok
-    if isinstance(v, Tok):
+    from .text import LineVal, Tok
+    if isinstance(v, (Tok, LineVal)):
         from .text import int_of
         return int_of(v)
     if isinstance(v, Cx):
@@ -908,8 +952,8 @@ def _b_float(interp, v=0):
     v = norm(v)
     if isinstance(v, A.Arr) and v.shape == ():
         v = v.get(())
-    from .text import Tok, float_of
-    if isinstance(v, (str, Tok)):
+    from .text import LineVal, Tok, float_of
+    if isinstance(v, (str, Tok, LineVal)):
         return float_of(v)
     return _float_of(v)
 
@@ -1039,6 +1083,10 @@ def _b_open(interp, path, mode="r", *a, **k):
     return open_file(interp, path, mode)
 
 
+def _b_next(interp, it, *default):
+    raise EngineError("next()")
+
+
 def _b_print(interp, *a, **k):
     return None
 
@@ -1060,6 +1108,10 @@ def _b_sorted(interp, it, **kw):
 
 
 def _b_map(interp, f, it):
+    it = norm(it)
+    if isinstance(f, LibFunc) and f.name == "str" and isinstance(it, A.Arr) and it.ndim == 1:
+        from .text import MapStr
+        return MapStr(it)
     return new_list([interp.call(f, [x], {}) for x in interp.iter_concrete(it)])
 
 
